@@ -255,11 +255,11 @@ func LeakPhase(tmp string, tab *Table, n int, salt int) (*LeakResult, *Diff, err
 			case aerr := <-ch:
 				if aerr == nil {
 					cleanup()
-					return res, &Diff{Sig: sig("AcceptAnswered", "adopted " + kind), Detail: "Accept on an adopted " + kind + " returned a connection"}, nil
+					return res, &Diff{Sig: sig("AcceptAnswered", "adopted "+kind), Detail: "Accept on an adopted " + kind + " returned a connection"}, nil
 				}
 			case <-time.After(20 * time.Second):
 				cleanup()
-				return res, &Diff{Sig: sig("AcceptAnswered", "adopted " + kind), Detail: "Accept on an adopted " + kind + " blocks"}, nil
+				return res, &Diff{Sig: sig("AcceptAnswered", "adopted "+kind), Detail: "Accept on an adopted " + kind + " blocks"}, nil
 			}
 			al.Close()
 		}
